@@ -49,6 +49,50 @@ class Unit:
         self.checks = checks
 
 
+class Lemma:
+    """An SMT-LIB lemma over mathematical integers, discharged by z3 (expected answer: unsat)."""
+    def __init__(self, id, smt2, props=(), note='', tier='quick', solver='z3', timeout=60):
+        self.id = id
+        self.smt2 = smt2
+        self.props = list(props)
+        self.note = note
+        self.tier = tier
+        self.solver = solver
+        self.timeout = timeout
+        self.backend = solver
+        self.variants = None
+        self.bounded = None
+        self.fn = None
+
+
+def check_lemma(lem, wd):
+    r = UnitResult(lem)
+    t0 = time.time()
+    os.makedirs(wd, exist_ok=True)
+    f = os.path.join(wd, re.sub(r'\W', '_', lem.id) + '.smt2')
+    with open(f, 'w') as fh:
+        fh.write(lem.smt2)
+    cmd = {'z3': ['z3', '-T:%d' % lem.timeout, f], 'cvc5': ['cvc5', '--tlimit=%d' % (lem.timeout * 1000), f]}[lem.solver]
+    rc, so, se, dt = run(cmd, lem.timeout + 10, 8)
+    r.solver_s = dt
+    r.cmd = ' '.join(cmd)
+    r.facts = {'target': 'lemma ' + lem.id, 'src': 'contracts (SMT-LIB, integers)'}
+    ans = so.strip().split('\n')[-1] if so.strip() else ''
+    oid = 'lemma.' + lem.id
+    if ans == 'unsat':
+        r.obligations[oid] = {'desc': lem.note or lem.id, 'status': 'SUCCESS'}
+        r.status = 'ok'
+    elif ans == 'sat':
+        r.obligations[oid] = {'desc': lem.note or lem.id, 'status': 'FAILURE'}
+        r.failed.append(oid)
+        r.status = 'failed'
+    else:
+        r.reason = 'lemma undecided: ' + (so + se)[-300:]
+    r.canaries = {'n/a': ('lemma', 'FAILURE')}
+    r.wall = time.time() - t0
+    return r
+
+
 def subst(text, f):
     """$this/$1.. -> parameter names, $ret -> return value, $Lk -> k-th local"""
     if not text:
